@@ -60,6 +60,8 @@ def gen_formula(rng):
     s = " + ".join([rng.choice(["1", "0"])] + terms)
     if rng.random() < 0.2:
         s = f"p ~ {s}" + (" | A" if rng.random() < 0.4 else "")
+    if rng.random() < 0.12:  # every other column, in the order the frame at hand holds them
+        s = rng.choice(["p ~ .", "p ~ . + x:A", "p + x ~ 0 + ."])
     return s
 
 
@@ -90,6 +92,9 @@ def gen_case(rng: random.Random, tier: str) -> dict:
     formulas = [gen_formula(rng) for _ in range(rng.randint(3, 5))]
     sizes = [20] if any("carr" in f for f in formulas) else [10, 14, 20]  # (the caller's array has 20 entries)
     frames = [gen_frame(rng, rng.choice(sizes), rng.random() < 0.4, rng.random() < 0.4, rng.random() < 0.2) for _ in range(rng.randint(2, 3))]
+    for fr in frames[1:]:  # the same columns need not come in the same order in every frame
+        if rng.random() < 0.5:
+            rng.shuffle(fr["cols"])
     ops, nspec = [], 0
     for _ in range(rng.randint(8, 30)):
         kind = rng.choice(["mm", "mm", "formula_mm", "mat_mm", "fit", "fit", "replay", "replay", "replay", "clone", "unfit", "repeat", "set_mm", "mixed_specs"])
